@@ -135,6 +135,9 @@ def call_path(I, path, args, e, env, arg_nodes=None, ci=None):
     f, places = m
     if args is None:
         args = eval_args(I, arg_nodes, env, places)
+    if any(isinstance(x, Ite) and isinstance(x.a, (IntV, Sc)) and isinstance(x.b, (IntV, Sc)) for x in args):
+        # numeric models are lifted over conditional arguments
+        return I.ite_lift(lambda *xs: f(I, list(xs), node, ci), *args)
     return f(I, args, node, ci)
 
 
@@ -787,7 +790,30 @@ def m_filter(I, a, e, ci):
 
 @model("std::iter::Iterator::next", places=(0,))
 def m_next(I, a, e, ci):
-    raise Unanalysable("explicit Iterator::next")
+    it = I.deref(a[0].get())
+    if not isinstance(it, IterV) or it.vec is None:
+        raise Unanalysable(f"explicit Iterator::next on {it!r}")
+    ln = it.vec.length()
+    nonempty = I.decide(Cond("lt", sp.Integer(0), sp.expand(ln)))
+    if nonempty is False:
+        return Enum("Option", "None", [])
+    first = it.vec.index(sp.Integer(0), I.bounds) if it.vec.nonempty_segs() else None
+    if first is None:
+        return Enum("Option", "None", [])
+    rest = IterV(it.vec.skip(1, I.bounds.with_ub(isym("_one"), 2)) if nonempty is True else Vec([Seg(sp.expand(s_.n - (1 if k_ == 0 else 0)), (lambda j, s_=s_, k_=k_: s_.f(j + (1 if k_ == 0 else 0)))) for k_, s_ in enumerate(it.vec.nonempty_segs())]))
+    a[0].set(rest)
+    some = Enum("Option", "Some", [first])
+    if nonempty is True:
+        return some
+    return Ite(nonempty, some, Enum("Option", "None", []))
+
+
+@model("std::iter::Iterator::all", "std::iter::Iterator::any")
+def m_all_any(I, a, e, ci):
+    it = I.deref(a[0])
+    which = (ci.get("path") or "").split("::")[-1]
+    c = Cond("other", text=f"{which}({it!r}, <closure at {FX.short(e.get('sp'))}>)")
+    return BoolV(c)
 
 
 @model("core::slice::<impl [T]>::split_at_mut", "core::slice::<impl [T]>::split_at")
